@@ -54,8 +54,8 @@ def mixed_pages(tier):
             for d0 in range(0, 96, 4):       # page regions of these shapes are 48..90 bytes long (positions wrap at the footer)
                 out.append(c06.shape(damage=4, damage0=d0, timeout=150, max_paths=400000, **sh))
         else:
-            for d0 in range(0, 192):         # one position per obligation
-                out.append(c06.shape(damage=1, damage0=d0, timeout=1500, max_paths=400000, **sh))
+            for d0 in range(0, 192, 4):      # four positions per obligation
+                out.append(c06.shape(damage=4, damage0=d0, timeout=900, max_paths=400000, **sh))
     return out
 
 
@@ -90,14 +90,17 @@ def obligations(tier):
     else:
         for b in HEAVY0_BYTES:
             for v in STUB_CODEC_VALUES:
-                o.append(win(0, 0, b, 1, 1, 1, 0, 3400, wvalue=v))
+                o.append(win(0, 0, b, 1, 1, 1, 0, 2400, wvalue=v))
+        # every byte position of both skeletons (8 per obligation), strided samples through stdio / mmap, 2-byte windows at every
+        # third position; the per-obligation caps are sized so that the whole tier fits its 3600 s budget on 16 cores
         for skel in (0, 1):
-            for w0 in range(0, 320, 16):
-                o.append(win(skel, 0, w0, 16, 1, 1, 0, 3400))
-            for w0 in range(0, 208, 16):
-                o.append(win(skel, 1, w0, 16, 1, 1, 0, 3400))
+            for w0 in range(0, 320, 8):
+                o.append(win(skel, 0, w0, 8, 1, 1, 0, 1200))
+            for w0 in range(0, 208, 8):
+                o.append(win(skel, 1, w0, 8, 1, 1, 0, 1200))
             for om in (1, 2):
-                o.append(win(skel, 0, 0, 32, 7, 1, om, 3400)); o.append(win(skel, 1, 0, 24, 6, 1, om, 3400))
+                for part in range(4):
+                    o.append(win(skel, 0, 7 * 8 * part, 8, 7, 1, om, 1200)); o.append(win(skel, 1, 6 * 6 * part, 6, 6, 1, om, 1200))
             for w0 in range(0, 240, 24):
-                o.append(win(skel, 0, w0, 12, 2, 2, 0, 3400))
+                o.append(win(skel, 0, w0, 4, 3, 2, 0, 1200)); o.append(win(skel, 0, w0 + 12, 4, 3, 2, 0, 1200))
     return o
